@@ -198,15 +198,10 @@ def run(ctx, progs):
         if not b:
             ctx.ob("C02.anchor", "prov(prog, GR, 'check_address')", False, "", "anchor body not found (renamed or removed): the rule cannot be evaluated — fail closed")
         if b:
-            rts = b.return_terms()
-            ok = False
-            for pos, t in rts:
-                t = deep_strip(t)
-                if t[0] == 'agg' and t[2] == 'Some':
-                    facts = b.facts_at(pos)
-                    inr = any(r[0] == 'bool' and r[2] is True and match(C("GuestMemoryRegion::address_in_range", P(1), P(2)), r[1], {}) for r in facts)
-                    ok = unref(t[3][0])[:2] == ('param', 2) and inr
-            ctx.ob("R2.3.check_address_region", b.key, ok and len(rts) == 2, b.where(), "Some(addr) exactly on the address_in_range(addr) edge, returning its own addr")
+            AIR = C("GuestMemoryRegion::address_in_range", P(1), P(2))
+            outcome_spec(ctx, prog, eff, "R2.3.check_address_region", b,
+                         [(AGG("Option", "Some", P(2)), [('bool', AIR, True)]), (NONE, [('bool', AIR, False)])],
+                         "Some(addr) exactly on the address_in_range(addr) edge, returning its own addr; None otherwise")
         CA = C("Address::checked_add", P(2), P(3))
         outcome_spec(ctx, prog, eff, "R2.3.checked_offset_region", prov(prog, GR, "checked_offset"),
                      [(C("GuestMemoryRegion::check_address", P(1), OKP(CA)), [('discr', CA, 1)]), (NONE, [('discr', CA, 0)])],
